@@ -39,6 +39,10 @@ pub broadcast axiom fn ax_fbits_of(b: int)
     requires 0 <= b < 0x1_0000_0000_0000_0000
     ensures fbits(#[trigger] f64_of(b)) == b;
 
+// A5 layout: size_of::<f64>() == 8  (vstd knows the integer sizes; checked by a const assertion in the Kani crate)
+pub broadcast axiom fn ax_size_of_f64()
+    ensures #[trigger] core::mem::size_of::<f64>() == 8;
+
 /// bit-identical floats (C01: "bit-identical X, Y and Z values")
 pub open spec fn same_bits(a: f64, b: f64) -> bool { fbits(a) == fbits(b) }
 
@@ -113,7 +117,7 @@ impl<R: Read> ReadBytesExt for R {
 }
 
 pub broadcast group g_bytes {
-    ax_enc_i32_len, ax_enc_f64_len, ax_dec_enc_i32, ax_dec_enc_f64, ax_enc_dec_i32, ax_enc_dec_f64, ax_fbits_of,
+    ax_enc_i32_len, ax_enc_f64_len, ax_dec_enc_i32, ax_dec_enc_f64, ax_enc_dec_i32, ax_enc_dec_f64, ax_fbits_of, ax_size_of_f64,
 }
 
 } // mod vp_bytes
